@@ -158,7 +158,7 @@ class C10(Check):
     assumptions = ["float-typed leaves representable in the target width", "tuples of length != 2 at union positions are not generated",
                    "data are built from the Python types the statement lists; look-alike number types (fractions.Fraction, numpy scalars: fastavro accepts numbers.Integral / numbers.Real by design) are outside the domain"]
     required_labels = ["expected:True", "expected:False", "strict", "raise_errors", "no-tuple-notation", "rejected-by-writer", "accepted-roundtrip",
-                       "mut:wrong-type", "mut:out-of-range", "mut:bool-for-int", "mut:wrong-fixed-size", "mut:unknown-symbol", "mut:non-string-key", "mut:missing-field", "mut:wrong-hint", "mut:wrong-type-hint", "strict-missing-nullable", "appending-writer", "logical-values", "logical-generated", "logical-by-name", "validate_many:several", "rejected-by-writer-function"]
+                       "mut:wrong-type", "mut:out-of-range", "mut:bool-for-int", "mut:wrong-fixed-size", "mut:unknown-symbol", "mut:non-string-key", "mut:missing-field", "mut:wrong-hint", "mut:wrong-type-hint", "strict-missing-nullable", "appending-writer", "logical-values", "logical-generated", "logical-by-name", "validate_many:several", "rejected-by-writer-function", "mapping-with-missing-hook"]
     quick = (5000, 1)
     thorough = (10000, 16)
 
@@ -216,6 +216,14 @@ class C10(Check):
             yield dict(base, schema=["null", dog, cat], datum={"legs": 4, "-type": "zoo.Cat"}, raise_errors=re_)
             yield dict(base, schema={"type": "record", "name": "zoo.Pen", "fields": [{"name": "first", "type": dog}, {"name": "pets", "type": {"type": "array", "items": ["zoo.Dog", cat]}}]},
                        datum={"first": {"legs": 4}, "pets": [{"legs": 4, "-type": "zoo.Cat"}, {"legs": 3, "-type": "Dog"}]}, raise_errors=re_, mutation="wrong-type-hint")
+        # mappings that invent values for missing keys (collections.defaultdict, Counter): a field is present only when the
+        # key is; validation must not read (and thereby create) what is not there
+        need_b = {"type": "record", "name": "NeedsB", "fields": [{"name": "a", "type": "string"}, {"name": "b", "type": "int"}, {"name": "c", "type": ["null", "long"]}]}
+        for re_ in (False, True):
+            for st_ in (False, True):
+                yield dict(base, schema=need_b, datum={"a": "x", "c": 5}, as_defaultdict="int", raise_errors=re_, strict=st_, mutation="missing-field")
+                yield dict(base, schema=need_b, datum={"a": "x", "b": 1}, as_defaultdict="none", raise_errors=re_, strict=st_, mutation="missing-field" if st_ else None)
+                yield dict(base, schema={"type": "array", "items": need_b}, datum=[{"a": "x", "b": 1, "c": None}, {"a": "y", "c": None}], as_defaultdict="int", raise_errors=re_, strict=st_, mutation="missing-field")
         yield dict(base, schema="int", datum=True)
         yield dict(base, schema="int", datum=2**31)
         yield dict(base, schema=[{"type": "enum", "name": "n.E", "symbols": ["A"]}, "string"], datum=("n.E", "A"))
@@ -227,6 +235,12 @@ class C10(Check):
         tn = case["tuple_notation"]
         strict = case["strict"]
         datum = case["datum"]
+        if case.get("as_defaultdict"):
+            import collections as _c
+            factory = int if case["as_defaultdict"] == "int" else (lambda: None)
+            conv = lambda m: _c.defaultdict(factory, m)  # noqa: E731
+            datum = [conv(m) for m in datum] if isinstance(datum, list) else conv(datum)
+            before_keys = [sorted(m) for m in (datum if isinstance(datum, list) else [datum])]
         labels = set()
         if case.get("mutation"):
             labels.add("mut:" + case["mutation"])
@@ -263,6 +277,11 @@ class C10(Check):
             if not want and (om[0] == "ok" or not isinstance(om[1], ValidationError)):
                 raise Violation("validate_many-defaults-accept-nonconforming", f"validate_many([datum], schema) with default options: {om!r:.200}; datum={datum!r:.150} schema={js!r:.200}")
         got = guard("validate", validate, datum, schema, raise_errors=False, **kw)
+        if case.get("as_defaultdict"):
+            labels.add("mapping-with-missing-hook")
+            after_keys = [sorted(m) for m in (datum if isinstance(datum, list) else [datum])]
+            if after_keys != before_keys:
+                raise Violation("validate-adds-keys-to-datum", f"validate inserted keys into the caller's mapping: {before_keys} -> {after_keys}; {ctx}")
         if got is not want:
             raise Violation(f"validate-returns-{got}-expected-{want}" + (":" + case["mutation"] if case.get("mutation") else ""), ctx)
         if case["raise_errors"]:
